@@ -348,6 +348,8 @@ func rulesC03(e *Engine, r *Report) {
 	e.shareRule(r, "C18", "R18.5", "R03.15", "a predecessor delivered today is found: the day loop of the log visits every day of the window including the last one, whatever the times of day of its ends - the receiver's cache refill after a restart and the search for a predecessor's record both run on it, and a successor whose predecessor's record is skipped is parked for good")
 	// ---------------------------------------------------------------- R03.16
 	e.shareRule(r, "C05", "R05.6", "R03.16", "a file in the receiver's pipeline is not overwritten by history: the refill of the cache from the receive log replaces only entries that themselves came from the log - an older record of the same name must not turn a validated, parked file into `logged` (it would never be released and the sender is told `passed`)")
+	// ---------------------------------------------------------------- R03.17
+	e.shareRule(r, "C20", "R20.5", "R03.17", "the cleaner comes back: clean() releases its lock before the deferred re-arming takes it again - the periodic pass is the only thing that frees files waiting on each other")
 }
 
 // checkFailedCompanionDiscarded: the record of ranges of an attempt that
